@@ -34,7 +34,7 @@ ANCHORS = [
     "stereomolgraph.experimental:topological_symmetry_number",
 ]
 REQUIRED_ANCHORS = ANCHORS
-REQUIRED = ["pairs_small", "pairs_symmetric", "symmetry_numbers", "reverts", "nonempty_answers", "empty_answers", "group_closure_checked", "labels:default", "labels:colour", "labels:constant", "labels:colliding", "pairs_regular", "scale_cases", "pairs_twins"]
+REQUIRED = ["pairs_small", "pairs_symmetric", "symmetry_numbers", "reverts", "nonempty_answers", "empty_answers", "group_closure_checked", "labels:default", "labels:colour", "labels:constant", "labels:colliding", "pairs_regular", "scale_cases", "pairs_twins", "same_object_pairs", "labels:marked"]
 CASE_TIMEOUT = 120
 LABELS = ("default", "colour", "constant", "element", "element+degree", "colliding")
 _diag = {"on": False, "bad": 0, "updates": 0, "reverts": 0}
@@ -126,6 +126,25 @@ def gen_cases(ctx):
                 g_["astereo"] = {}
             change = True
         yield {"kind": "small", "family": "twins", "cls": cls, "a": pg_to_json(a), "b": pg_to_json(b), "stereo": True, "change": change, "labels": ("default", "constant", "element", "element+degree")[i % 4], "bseed": rng.randrange(1 << 30)}  # (no colour labels: they tell unspecified from specified parities apart, which the enumeration mode does not)
+    # "which automorphisms send atom x to atom y": ONE graph object enumerated against itself (or an equal copy) under
+    # two different caller label maps (x marked in the first, y in the second)
+    for i in range(ctx.n(1200, 12000)):
+        cls = CLASS_NAMES[i % 4]
+        if i % 3 == 0:
+            a = gen.symmetric_pg(rng, rng.choice(["methane", "ethane", "c2h4", "cyclopropane", "benzene", "star5", "two_methane"]), cls if cls in ("MolGraph", "StereoMolGraph") else "MolGraph")
+            a.pop("name", None)
+            cls = a["cls"]
+            if cls in STEREO and rng.random() < 0.6:
+                gen.decorate(rng, a, p_stereo=rng.choice([0.3, 1.0]))
+        else:
+            a = gen.random_pg(rng, cls, n_range=(2, 7), alphabet=gen.TINY, p_stereo=0.7, allow_isolated=rng.random() < 0.2)
+        ids = sorted(a["atoms"], key=repr)
+        x = rng.choice(ids)
+        same_el = [y for y in ids if a["atoms"][y]["atom_type"] == a["atoms"][x]["atom_type"]]
+        y = rng.choice(same_el)
+        stereo = cls in STEREO and rng.random() < 0.75
+        change = stereo and cls == "StereoCondensedReactionGraph" and rng.random() < 0.75
+        yield {"kind": "small", "family": "marked", "cls": cls, "a": pg_to_json(a), "b": pg_to_json(a), "stereo": stereo, "change": change, "labels": "marked", "mark": [ids.index(x), ids.index(y)], "same_object": i % 4 != 3, "bseed": rng.randrange(1 << 30)}
     # very long chains: search depth = number of atoms
     for k, nsz, cls, seed in gen.scale_specs(ctx, rng, reps=1):
         yield {"kind": "small", "family": "scale", "cls": cls, "scale": nsz, "gseed": seed, "self": k % 2 == 0, "stereo": cls in STEREO, "change": cls == "StereoCondensedReactionGraph", "labels": "default", "bseed": seed // 3}
@@ -219,10 +238,19 @@ def check_case(ctx, case):
         ctx.case()
         return
     ctx.count(f"via:{via}")
+    if case.get("same_object"):
+        gb = ga
+        ctx.count("same_object_pairs")
     if kind == "small" and lk == "colour" and (not a["atoms"] or not b["atoms"]):
         lk = "default"
-    la, ra = _labels(lk, ga, a, stereo, change)
-    lb, rb = _labels(lk, gb, b, stereo, change)
+    if lk == "marked":
+        ids = sorted(a["atoms"], key=repr)
+        x, y = (ids[k] for k in case["mark"])
+        la = ra = {k: int(v["atom_type"]) * 2 + (k == x) for k, v in a["atoms"].items()}
+        lb = rb = {k: int(v["atom_type"]) * 2 + (k == y) for k, v in a["atoms"].items()}
+    else:
+        la, ra = _labels(lk, ga, a, stereo, change)
+        lb, rb = _labels(lk, gb, b, stereo, change)
     ref = [dict(m) for m in sem.iter_isos(_with_labels(a, ra), _with_labels(b, rb), stereo=stereo, changes=change, budget=5_000_000)]
     _diag["on"] = kind == "small"
     r0, b0 = _diag["reverts"], _diag["bad"]
